@@ -169,6 +169,8 @@ def gen_continuum(rng, n_annot=None, max_units=4, family=None, labels=None, p_no
         ann[name] = sorted(units, key=unit_key)
     spec = {"ann": {a: [list(u) for u in us] for a, us in ann.items()}, "family": family}
     if rng.random() < 0.1:
+        spec["readd"] = rng.randint(1, 3)     # some units are added twice (see build_continuum): a no-op on a set
+    if rng.random() < 0.1:
         # same values, but handed over as numpy scalars (times taken from an array, a cumulative sum, a data frame)
         spec["time_type"] = "np.float64"
     return spec
@@ -190,6 +192,13 @@ def build_continuum(spec):
     for a, units in spec["ann"].items():
         c.add_annotator(a)
         for s, e, lab in units:
+            c.add(a, Segment(wrap(s), wrap(e)), lab)
+    if spec.get("readd"):
+        # the same (annotator, segment, label) added again (a duplicated row, two overlapping batches): the container is
+        # a set, the continuum is what it was
+        flat = [(a, u) for a, units in spec["ann"].items() for u in units]
+        for i in range(min(int(spec["readd"]), len(flat))):
+            a, (s, e, lab) = flat[(7 * i + 3) % len(flat)]
             c.add(a, Segment(wrap(s), wrap(e)), lab)
     return c
 
